@@ -78,24 +78,36 @@ theorem sp_norm_exc (t : Tree) : ∀ (c : Nat) (f : Flags) (S S' : St), S.exc = 
       | fault s1 => rw [hb] at e; cases e
   | throw => intro c f S S' h e; simp only [sp] at e; cases e
   | abort => intro c f S S' h e; simp only [sp] at e; cases e
-  | native o fl cb ih =>
+  | native inner o fl cb k ih ihk =>
     intro c f S S' h e
     simp only [sp] at e
     split at e
-    · cases hn : natStep o c (f.and fl) S.σ.get with
+    · generalize (if inner = true then f else f.and fl) = f' at e
+      cases hn : natStep o c f' S.σ.get with
       | none => rw [hn] at e; cases e
       | some out =>
         rw [hn] at e
-        simp only at e
+        simp only [spPhase] at e
+        have tail : ∀ S2 : St, S2.exc = false →
+            (match sp k c f' S2 with | .norm s3 => Res.norm s3 | .thrown s3 => .fault s3 | .fault s3 => .fault s3) = .norm S' →
+            S'.exc = false := by
+          intro S2 h2 e2
+          cases hk : sp k c f' S2 with
+          | norm s3 => rw [hk] at e2; cases e2; exact ihk _ _ S2 _ h2 hk
+          | thrown s3 => rw [hk] at e2; cases e2
+          | fault s3 => rw [hk] at e2; cases e2
         cases hcb : out.cb with
-        | none => rw [hcb] at e; cases e; exact h
+        | none => rw [hcb] at e; simp only at e; exact tail { S with σ := out.ws ++ S.σ, ev := S.ev ++ out.evs } h e
         | some to =>
           rw [hcb] at e
           simp only at e
-          split at e
-          · cases e
-          cases hb : sp cb to (f.and fl) { S with σ := out.ws ++ S.σ, ev := S.ev ++ out.evs } with
-          | norm s2 => rw [hb] at e; cases e; exact ih _ _ { S with σ := out.ws ++ S.σ, ev := S.ev ++ out.evs } _ h hb
+          by_cases hab : out.cbAbort = true
+          · simp only [hab, if_true] at e; cases e
+          simp only [hab, if_false, Bool.false_eq_true] at e
+          cases hb : sp cb to f' { S with σ := out.ws ++ S.σ, ev := S.ev ++ out.evs } with
+          | norm s2 =>
+            rw [hb] at e
+            exact tail s2 (ih _ _ { S with σ := out.ws ++ S.σ, ev := S.ev ++ out.evs } _ h hb) e
           | thrown s2 => rw [hb] at e; cases e
           | fault s2 => rw [hb] at e; cases e
     · cases e
